@@ -881,3 +881,31 @@ mod test {
         }
     }
 }
+
+#[cfg(feature = "verif")]
+impl MqttState {
+    /// Canonical rendering of the bookkeeping, without the wall-clock instants.
+    pub fn verif_digest(&self) -> String {
+        let outgoing: Vec<(usize, &Publish)> = self
+            .outgoing_pub
+            .iter()
+            .enumerate()
+            .filter_map(|(i, p)| p.as_ref().map(|p| (i, p)))
+            .collect();
+        format!(
+            "ping={} cpc={} pkid={} puback={} inflight={}/{} pub={:?} rel={:?} inc={:?} col={:?} ev={:?} manual={}",
+            self.await_pingresp,
+            self.collision_ping_count,
+            self.last_pkid,
+            self.last_puback,
+            self.inflight,
+            self.max_inflight,
+            outgoing,
+            self.outgoing_rel.ones().collect::<Vec<_>>(),
+            self.incoming_pub.ones().collect::<Vec<_>>(),
+            self.collision,
+            self.events,
+            self.manual_acks
+        )
+    }
+}
